@@ -268,6 +268,7 @@ def run_cheap(case, wd):
     from polyply.src.load_library import load_build_files
     from polyply.src.gen_coords import find_starting_node_from_spec
     from polyply.src.annotate_ligands import AnnotateLigands
+    from polyply.src.meta_molecule import _find_starting_node
     import polyply.src.restraints as R
     import polyply.src.persistence as PS
     obs = default_obs(case)
@@ -314,10 +315,12 @@ def run_cheap(case, wd):
         R.set_restraints(top, _Box())
         obs["dtags"] = rec.tags(top)
         obs["ran"].append("restr")
-        phase = "build"         # what the random walk reads, then the abstract effect of BuildSystem on ligated nodes
-        for mol in top.molecules:
-            for k in mol.nodes:
-                mol.nodes[k]["build"]
+        phase = "build"         # what RandomWalk._random_walk reads, then the abstract effect of BuildSystem on ligated nodes
+        for i, mol in enumerate(top.molecules):
+            first = sd[i] if sd[i] else _find_starting_node(mol)
+            mol.root = first
+            for _, cur in list(mol.search_tree.edges):
+                mol.nodes[cur]["build"]
         for i, mol in enumerate(top.molecules):
             j = 0
             for k, d in mol.nodes(data=True):
@@ -336,6 +339,10 @@ def run_cheap(case, wd):
         if any("ligated" in d for mol in top.molecules for _, d in mol.nodes(data=True)):
             obs["after"] = [[] for _ in top.molecules]
         obs["ran"].append("hand")
+        phase = "backmap"       # what Backmap reads
+        for mol in top.molecules:
+            for k in mol.nodes:
+                mol.nodes[k]["backmap"]
     except Exception as exc:      # the code under test raised: recorded, judged by the specification
         obs["err"] = "%s:%s" % (phase, type(exc).__name__)
         obs["raw"]["exception"] = "%s: %s" % (type(exc).__name__, str(exc)[:300])
@@ -522,9 +529,7 @@ def run_full(case, wd, seed=0):
         obs["gro"] = read_gro_residues(out, case)
         obs["ran"].append("full")
     except Exception as exc:
-        # the I-layer's Build stands for BuildSystem and Backmap: both need the build/backmap attributes of every residue
-        ph = "build" if st["phase"] == "backmap" and isinstance(exc, KeyError) and exc.args and exc.args[0] in ("build", "backmap") else st["phase"]
-        obs["err"] = "%s:%s" % (ph, type(exc).__name__)
+        obs["err"] = "%s:%s" % (st["phase"], type(exc).__name__)
         obs["raw"]["exception"] = "%s: %s" % (type(exc).__name__, str(exc)[:300])
         obs["raw"]["where"] = traceback.format_exc(limit=-3)[-600:]
     finally:
@@ -841,7 +846,7 @@ def run(tier):
     for cs in cases:
         cc = cs["c"]
         for a, n in (("SplitMolecule", len(cc["mols"]) if cc["split"] else 0), ("ParseLine", len(cc["bld"])), ("Finalize", 1), ("FindStart", len(cc["start"])),
-                     ("AnnotateSpec", len(cc["lig"])), ("Connect", len(cc["mols"]) if cc["lig"] else 0), ("SplitLigands", 1 if cc["lig"] and not cs["x"]["err"] else 0),
+                     ("AnnotateSpec", len(cc["lig"])), ("Connect", len(cc["mols"]) if cc["lig"] else 0), ("SplitLigands", 1 if cc["lig"] and not cs["x"]["err"] else 0), ("Build", 1), ("Backmap", 1 if not cs["x"]["err"] else 0), ("Engine", 1 if cc["lig"] else 0),
                      ("SamplePers", sum(1 for l in cc["bld"] if l["k"] == "pers")), ("SetRestraints", sum(1 for l in cc["bld"] if l["k"] == "dist"))):
             acts[a] = acts.get(a, 0) + n
     for a, n in acts.items():
